@@ -73,7 +73,7 @@ __CPROVER_ensures(/* three distinct rules */ self->m_defaultRule != self->m_defa
         Mutant('root_rule_matches_any', SR, r'XPath::PSEUDONAME_ROOT\);', 'XPath::PSEUDONAME_ANY);', expect='root'),
         Mutant('text_rule_attrs_not_cleared', SR, r'(assert\(m_defaultTextRule != 0\);\s*)attrs\.clear\(\);', r'\1', expect='text and attributes'),
     ],
-    mechanisms=['built-in template rules'],
+    mechanisms=['built-in template rules', 'built-in rules and apply-imports scoping'],
     assumptions=['createElement(kind, stylesheet, attrs) builds the instruction of that kind from the attributes in the list (element constructors not verified); the attribute list is modelled as count + first attribute',
                  'setDefaultTemplate flags the element and its present children (ElemTemplateElement.cpp, modelled inline); Constants::* / XPath::PSEUDONAME_* are compared by name, their texts are not checked'],
 )
